@@ -2,9 +2,33 @@
 # Regenerates MANIFEST.json from the per-property table below.
 import json, os
 claimed = {
+ "C01": ("bounded symbolic execution (gosym over go/ssa, SMT-decided) of ComputeSignature, WritePatch, wsync differ, wire, patcher, fresh bowl on an in-memory file system; native replay of counterexamples",
+         "Within the instance grids (scaled block size 2..4, 1-3 files up to 2B+1 bytes, 9x9 shape relations) all byte values are covered by the solver at once; NONE compression only.",
+         "memfs/md5/protobuf models; deterministic goroutine schedule; compression codecs outside the claim"),
+ "C04": ("bounded symbolic execution of both signature producers (ComputeSignature, diff-time signing via WritePatch), ReadSignature, ComputeHashInfo, Validate/AssertValid; independent reference hashes in the harness; SMT decides all branches/assertions",
+         "For every build in the grid (sizes on/around block multiples, 1-3 files, symlink, empty dir, short-read slicings) the solver shows both producers agree with the reference for all contents and the build validates.",
+         "memfs/md5 (injective)/protobuf models; deterministic schedule; NONE compression only"),
+ "C05": ("bounded symbolic execution of Validate (wounds-file and fail-fast modes), ValidatingPool, drip writer, AggregateWounds, WoundsWriter with independent symbolic signed/actual contents; SMT-decided; native replay",
+         "For all signed/actual contents and lengths in the grid and all entry-kind damage combinations: differing offsets are covered by wounds, wrong lengths/kinds are reported, wounds are well-formed.",
+         "memfs/md5/protobuf models; BlockSize and MaxWoundSize declared values scaled by overlay; deterministic schedule"),
+ "C09": ("bounded symbolic execution of the safekeeper pool under the real patcher and fresh bowl with an independently symbolic damaged old file; SMT-decided; native replay",
+         "For every pristine/damaged length pair in the grid and all contents: error or exact result, and undamaged is accepted.",
+         "memfs (copy buffer B/2)/md5/protobuf models; bsdiff-series consumers not covered"),
  "C11": ("bounded symbolic execution of wsync.CreateSignature/ComputeDiff/ApplySingle from go/ssa; SMT (z3/cvc5) decides every branch and assertion; counterexamples replayed natively",
          "Within the listed instance grid (block sizes 1..4, 1-3 old files, new content up to 9 bytes, scaled MaxDataOp 3..8) every byte value of every input is covered at once by the solver; outside the grid nothing is claimed.",
          "md5 replaced by an injective model; MaxDataOp's declared value scaled by overlay (uses are real); solver answers trusted, unknown = inconclusive"),
+ "C12": ("bounded symbolic execution of lrufile (symbolic seek offsets / op sequences) and of bsdiff.Do + Patch/Apply (goroutines, gosaca) over small alphabets; SMT-decided; native replay",
+         "lrufile: every op sequence of length 3-4 with symbolic offsets and contents agrees with a reference reader; bsdiff: every (old,new) over the alphabet within the length bounds and partitions 0..16 round-trips, also from a saved mid-series offset.",
+         "scan block / lru geometry declared values scaled; deterministic goroutine schedule (schedules: C15)"),
+ "C13": ("bounded symbolic execution of wire.WriteContext/ReadContext incl. WantSave/PopCheckpoint/Resume over seeksource and a lagging-source model; assertions decided by term identity / SMT",
+         "For every message-length pattern, save subset and checkpoint lag in the grid, read-back equals written for all payload bytes and every popped checkpoint resumes at the next unread message.",
+         "protobuf/gob models; compressors represented only by the source checkpoint contract (not_applicable part: gzip/brotli codecs)"),
+ "C14": ("bounded symbolic execution of the overlay writer/processor and OverlayPatchContext.Patch with fully symbolic old/new contents (solver enumerates equality patterns), write slicings, flushes and session resumes",
+         "For all old/new contents up to 2W+3 bytes (scaled window W, threshold T) and the listed write/flush/resume patterns: old+overlay truncated == new.",
+         "overlayBufSize/overlaySameThreshold declared values scaled; full reads from the old file"),
+ "C18": ("bounded symbolic execution of ValidatingPool.GetWriter, drip.Writer, onclose, blockValidator in error and wound mode with every slicing of the written bytes; SMT-decided; native replay",
+         "For all signed/written contents and lengths in the grid and every way of slicing the writes: failing call, pass-through prefix and wound records are exactly as the property states.",
+         "BlockSize declared value scaled; md5 injective model; recording inner pool"),
 }
 na = {
 }
